@@ -697,6 +697,7 @@ func buildEnv(c *EvalCase) (*evalEnv, bool) {
 }
 
 const evalTimeout = 10 * time.Second
+const evalGrace = 60 * time.Second
 
 // hung is set once an evaluation (or a decode) did not come back in time: the leaked goroutine keeps spinning, so
 // the remaining cases of this run are not executed (they are answered with the same "non-termination" marker and the
@@ -741,8 +742,7 @@ func runGo(c *EvalCase) *T {
 			}
 		}
 	}()
-	select {
-	case o := <-ch:
+	finish := func(o out) *T {
 		if o.panicked != nil {
 			return L(A(2), S(fmt.Sprint(o.panicked)))
 		}
@@ -750,7 +750,18 @@ func runGo(c *EvalCase) *T {
 			return L(A(98))
 		}
 		return L(A(1), wireDetail(o.res.Detail), Ab(o.res.IsExperiment), LL(o.env.log.items))
+	}
+	select {
+	case o := <-ch:
+		return finish(o)
 	case <-time.After(evalTimeout):
+		// on a starved machine a call that terminates can miss the limit; a call that does not terminate will miss the
+		// second, longer one as well
+		select {
+		case o := <-ch:
+			return finish(o)
+		case <-time.After(evalGrace):
+		}
 		hung = true
 		return L(A(3))
 	}
